@@ -28,6 +28,9 @@ clauses
   supplied-seed-history     stochastic engine (Langevin, damped XL-BOMD, surface hopping) started from preset velocities: the same seed
                             gives bitwise identical HDF5 after two different RNG histories, and (seed-differs) another seed after the
                             SAME history gives a different trajectory
+  reuse-bitwise             ONE driver object (Basic, undamped XL-BOMD / KSA) run twice on fresh Molecules with remove_com sequences
+                            angular->None, angular->linear, linear->None, None->angular: the second run satisfies every step-0 clause
+                            under the mode of THAT run and is bitwise equal to a fresh driver's run with the same seed
   run-raised                a run in the quantifier's range must not raise
 """
 import numpy as np
@@ -44,7 +47,7 @@ ASSUMPTIONS = ["float64 CPU, one torch thread, runs of one case execute in one p
                "n_dof rule is the documented one (docs/source/bomd.rst: 3 / 6 constraints, linear molecules not auto-detected; "
                "Langevin keeps 3N)", "atomic masses of the shipped table are the property's given"]
 REQUIRED_MONITORS = ["md_runs", "draws_checked", "zero_com_calls", "zero_com_nontrivial", "digest_pairs", "supplied_checked",
-                     "padding_rows_checked", "linear_molecules", "stochastic_supplied"]
+                     "padding_rows_checked", "linear_molecules", "stochastic_supplied", "reuse_sequences"]
 CASE_TIMEOUT = 600.0
 BUDGET_S = {"quick": 230, "thorough": 1600}
 
@@ -76,6 +79,13 @@ def gen_cases(tier, seed):
                       "remove_com": [None, None, ["linear", 1], ["angular", 1], ["linear", 2]][(i // 5) % 5],
                       "seeds": [int(g.integers(0, 10 ** 6)), int(g.integers(0, 10 ** 6))], "steps": 2 if tier == "quick" else 3, "dt": [0.5, 0.2][i % 2],
                       "geom_seed": int(g.integers(0, 2 ** 31))})
+    seqs = [(["angular", 1], None), (["angular", 2], ["linear", 1]), (["linear", 1], None), (None, ["angular", 1])]
+    rsys = [["CH4"], ["H2O", "CH4"], ["CO2", "NH3", "H2"], ["CH2O"]]
+    for i in range(6 if tier == "quick" else 48):
+        cases.append({"kind": "reuse", "mols": rsys[(i + i // 4) % 4], "engine": ["basic", "xl", "ksa"][i % 3] if i >= 4 else ["basic", "basic", "xl", "ksa"][i],
+                      "method": ["AM1", "PM3"][i % 2], "Temp": [300.0, 1000.0, 10.0][i % 3], "sequence": seqs[i % 4],
+                      "seeds": [int(g.integers(0, 10 ** 6)), int(g.integers(0, 10 ** 6))], "preconsume": int(g.integers(1, 500)),
+                      "steps": 2, "dt": [0.5, 0.2][i % 2], "geom_seed": int(g.integers(0, 2 ** 31))})
     for i in range(1 if tier == "quick" else 8):
         cases.append({"kind": "supplied", "mols": [["CH2O"], ["CH2O", "CH2O"]][i % 2], "engine": "sh", "method": "AM1", "Temp": 50.0,
                       "field_T": 300.0, "variant": variants[i % 4], "remove_com": None,
@@ -91,6 +101,8 @@ def _engine(case):
         return "xl", 20.0, {"k": 3}
     if e == "xl":
         return "xl", None, {"k": 3}
+    if e == "ksa":
+        return "ksa", None, {"k": 3, "max_rank": 2, "err_threshold": 0.0, "T_el": 1500}
     if e == "langevin":
         return "langevin", 15.0, None
     if e == "sh":
@@ -141,7 +153,7 @@ def _rigid_factor(m, X):
 def _ndof_mech(case, Zs):
     """classifier: a molecule with <= 2 atoms under ('angular', N) in an engine that subtracts the constraints has 3N-6 <= 0."""
     rc = case["remove_com"]
-    if rc is not None and str(rc[0]).lower() == "angular" and case["engine"] in ("basic", "xl") and any(len(z) <= 2 for z in Zs):
+    if rc is not None and str(rc[0]).lower() == "angular" and case["engine"] in ("basic", "xl", "ksa") and any(len(z) <= 2 for z in Zs):
         return "ndof-zero-diatomic-angular"
     return None
 
@@ -227,7 +239,7 @@ class _Acc:
             self.viol.append({"clause": name, "mech": mech, "detail": detail or {}})
 
 
-def _one_run(case, S, C, sett, prefix, seed, velocities=None, preconsume=0, outer_seed=None):
+def _one_run(case, S, C, sett, prefix, seed, velocities=None, preconsume=0, outer_seed=None, engine_obj=None, keep=False):
     """one real md.run; returns record incl. post-initialize snapshot, digests, zero_com events."""
     import torch
     from vlib import md
@@ -237,7 +249,8 @@ def _one_run(case, S, C, sett, prefix, seed, velocities=None, preconsume=0, oute
     snap = {}
 
     def pre_run(mol, mdo):
-        orig = mdo.initialize
+        orig = getattr(mdo, "_c13_orig_initialize", None) or mdo.initialize  # a reused driver is wrapped once only
+        mdo._c13_orig_initialize = orig
 
         def wrapped(*a, **k):
             r = orig(*a, **k)
@@ -257,7 +270,8 @@ def _one_run(case, S, C, sett, prefix, seed, velocities=None, preconsume=0, oute
     molid = list(range(len(S)))
     with _ZeroComMonitor() as zm:
         rec = md.run_md(eng, S, C, sett, case["dt"], case["Temp"], case["steps"], prefix, molid=molid, damp=damp, xl=xl,
-                        velocities=velocities, seed=seed, reuse_P=True, remove_com=rc, pre_run=pre_run)
+                        velocities=velocities, seed=seed, reuse_P=True, remove_com=rc, pre_run=pre_run, engine_obj=engine_obj,
+                        keep=keep)
     rec["snap"] = snap
     rec["events"] = zm.events
     rec["digest"] = [md.h5_digest(rec["h5"][k]["path"]) if k in rec["h5"] else None for k in molid]
@@ -482,7 +496,56 @@ def _supplied(case):
                     "max_abs_v": float(np.abs(V).max())}}
 
 
+def _reuse(case):
+    """ONE driver object run twice on fresh Molecules with different remove_com modes; the second run is judged with the step-0
+    clauses under the mode of THAT run and must be bitwise equal to a fresh driver's run with the same seed."""
+    from vlib import env
+
+    acc = _Acc()
+    S, C, Zs, g = _system(case)
+    sett = _sett(case)
+    rc1, rc2 = case["sequence"]
+    c1, c2 = dict(case, remove_com=rc1), dict(case, remove_com=rc2)
+    with env.Scratch("c13") as d:
+        R1 = _one_run(c1, S, C, sett, d + "/R", case["seeds"][0], keep=True)
+        if R1["error"] or R1.get("_md") is None:
+            return {"inconclusive": "first run on the driver raised: %s" % R1["error"]}
+        R2 = _one_run(c2, S, C, sett, d + "/R", case["seeds"][1], preconsume=case["preconsume"], engine_obj=R1["_md"])
+        F = _one_run(c2, S, C, sett, d + "/F", case["seeds"][1])
+    for r in (R1, R2):
+        r.pop("_md", None)
+        r.pop("_mol", None)
+    for tag, r in (("reused-driver", R2), ("fresh-driver", F)):
+        if r["error"]:
+            acc.flag("run-raised", True, {"run": tag, "error": r["error"][:400], "sequence": case["sequence"]}, mech=_ndof_mech(c2, Zs))
+        else:
+            acc.mon["md_runs"] += 1
+    if R2["error"] or F["error"]:
+        return {"nontrivial": False, "violations": acc.viol, "margins": acc.margins, "monitors": acc.mon, "cells": [],
+                "obs": {"errors": [R2["error"], F["error"]]}}
+    acc.mon["md_runs"] += 1
+    ok = _step0(acc, c1, Zs, R1, "first", drawn=True)
+    ok &= _step0(acc, c2, Zs, R2, "reused-driver", drawn=True)
+    ok &= _step0(acc, c2, Zs, F, "fresh-driver", drawn=True)
+    for tag, r in (("reused-driver", R2), ("fresh-driver", F)):
+        _check_padding(acc, S, C, r, tag)
+        _check_events(acc, r, tag)
+    acc.flag("reuse-bitwise", R2["digest"] != F["digest"],
+             {"sequence": case["sequence"], "engine": case["engine"], "n_dof_reused": None if R2["n_dof"] is None else R2["n_dof"].tolist(),
+              "n_dof_fresh": None if F["n_dof"] is None else F["n_dof"].tolist(),
+              "T0_reused": [float(R2["h5"][k]["T"][0]) for k in R2["h5"]], "T0_fresh": [float(F["h5"][k]["T"][0]) for k in F["h5"]]})
+    acc.mon["digest_pairs"] += 1
+    acc.mon["reuse_sequences"] += 1
+    lab = lambda rc: "none" if rc is None else rc[0]
+    acc.cells.append("reuse/%s/%s->%s" % (case["engine"], lab(rc1), lab(rc2)))
+    return {"nontrivial": bool(ok), "violations": acc.viol, "margins": acc.margins, "monitors": acc.mon, "cells": acc.cells,
+            "obs": {"sequence": case["sequence"], "n_dof_first": None if R1["n_dof"] is None else R1["n_dof"].tolist(),
+                    "n_dof_second": None if R2["n_dof"] is None else R2["n_dof"].tolist(), "bitwise_equal_to_fresh": R2["digest"] == F["digest"]}}
+
+
 def run_case(case):
+    if case["kind"] == "reuse":
+        return _reuse(case)
     if case["kind"] == "draw":
         return _draw(case)
     if case["kind"] == "supplied":
